@@ -11,7 +11,7 @@ CLAIMED = {
    "Coq kernel; extraction + OCaml driver; translator py2v.py and Lib/PyTime.v; CPython datetime is modelled (Z microseconds, fixed offsets), not verified; correspondence covers years 1971-2999", T_TIE),
  "C02": ("3.1-3.3, 5 (C02)",
    "Theorems in coq/Props/C02.v: days_to_weekday in 1..7 and landing on the target for all pairs; next_weekday_time_occurrence is the least instant after the reference with matching weekday and time read in the trigger's offset; successive due times are 7 days apart; the same-weekday rule; k-fold life of a weekly job. Tied by re-translation of util.py (Tie lemmas) and by the weekly correspondence stream.",
-   "as C01; the Weekday classes and the weekday() factory are covered by the correspondence only", T_TIE),
+   "as C01; translated as well: the Weekday classes and the weekday() factory (tie_weekday_factory)", T_TIE),
  "C03": ("5 (C03)",
    "Props/C03.v: after n executions at arbitrary polling instants a cyclic job is planned for s+(n+1)T (s+nT with delay=False), for every s, T and history; once(datetime/timedelta/time/weekday) are exact resp. the next occurrence, all with max_attempts 1. Tied by the cyclic correspondence stream (irregular polls, polls on an occurrence, gaps of many intervals, once() of all four kinds).",
    N_SEQ + "; translated: once() of both front ends and JOB_TYPE_MAPPING (tie_thr_once, tie_aio_once), BaseJob, JobTimer", T_TIE),
